@@ -85,6 +85,7 @@ type PathResult struct {
 	Nontrivial   bool
 	EngineErr    string
 	MapOrderDependent bool
+	UnknownBranches   int
 }
 
 type Machine struct {
@@ -161,6 +162,7 @@ type RunConfig struct {
 	MaxSteps    int
 	LoopBound   int
 	SolverMs    int
+	BranchMs    int
 	Trace       bool
 	CheckWitness bool
 }
@@ -217,6 +219,7 @@ func (m *Machine) modelEval(c *Term) (bool, bool) {
 		return false, false
 	}
 	if m.model == nil {
+		m.solver.SetTimeout(m.cfg.BranchMs)
 		if m.solver.Check(m.ts) != Sat {
 			return false, false
 		}
@@ -245,6 +248,16 @@ func (m *Machine) assume(t *Term) {
 }
 
 func (m *Machine) check(extra ...*Term) SatResult {
+	m.solver.SetTimeout(m.cfg.SolverMs)
+	r := m.solver.Check(m.ts, extra...)
+	if r == Sat {
+		m.solver.Done()
+	}
+	return r
+}
+
+func (m *Machine) checkBranch(extra ...*Term) SatResult {
+	m.solver.SetTimeout(m.cfg.BranchMs)
 	r := m.solver.Check(m.ts, extra...)
 	if r == Sat {
 		m.solver.Done()
@@ -279,24 +292,23 @@ func (m *Machine) decide(c *Term) bool {
 	if mv, ok := m.modelEval(c); ok {
 		if mv {
 			rt = Sat
-			rf = m.check(nc)
+			rf = m.checkBranch(nc)
 		} else {
 			rf = Sat
-			rt = m.check(c)
+			rt = m.checkBranch(c)
 		}
 	} else {
-		rt = m.check(c)
+		rt = m.checkBranch(c)
 		if rt == Unsat {
 			rf = Sat
 		} else {
-			rf = m.check(nc)
+			rf = m.checkBranch(nc)
 		}
 	}
-	if rt == Unknown {
-		m.res.Inconclusive = append(m.res.Inconclusive, "branch feasibility unknown at "+m.cur.fr.where())
-	}
-	if rf == Unknown {
-		m.res.Inconclusive = append(m.res.Inconclusive, "branch feasibility unknown at "+m.cur.fr.where())
+	// an undecided side is kept (explored as if feasible): sound for "holds" verdicts,
+	// any counterexample found later must still replay natively
+	if rt == Unknown || rf == Unknown {
+		m.res.UnknownBranches++
 	}
 	if rt == Unsat && rf == Unsat {
 		panic(abortRun{"infeasible", "both sides of a branch are infeasible"})
